@@ -18,12 +18,12 @@
 (*                                                                         *)
 (* The state machine is "somebody types an address": a case is picked      *)
 (* (PickSeed, or a table: EncCase, RawCase, LongCase, GenericCase, OddCase,*)
-(* ShortString, B58RawCase, B58BadCase, B58Class, WifClass) and a seed     *)
-(* address is then edited (Substitute, UpperAll + UpSubstitute, Delete,    *)
-(* Insert, Transpose, FlipCase, CasePart, Truncate, SubstituteK, EditK,    *)
-(* PadBits, ExtraGroup, VariantSwap, HrpSwap).  Every state carries the    *)
-(* model's verdict r for its string s; the properties are invariants over  *)
-(* (c, q, d, s, r).  The cases do not depend on the path that led to them. *)
+(* ShortString, B58RawCase, B58BadCase, B58Class, WifClass, B58Con, WifCon)*)
+(* and a seed address is then edited (Substitute, UpperAll + UpSubstitute, *)
+(* Delete, Insert, Transpose, FlipCase, CasePart, Truncate, SubstituteK,   *)
+(* EditK, PadBits, ExtraGroup, VariantSwap, HrpSwap).  Every state carries *)
+(* the model's verdict r for its string s; the properties are invariants   *)
+(* over (c, q, d, s, r).  The cases do not depend on the path to them.     *)
 (***************************************************************************)
 EXTENDS Integers, Sequences, FiniteSets, Bitwise, TLC
 LOCAL INSTANCE SequencesExt     \* FoldLeft (evaluated by TLC in Java)
@@ -282,6 +282,19 @@ B58Accept(x) == x[2] = 25 /\ x[4] = 0 /\ x[5] = 0 /\ x[6] = 0
 B58Kind(x) == IF x[1] \in {0, 111} THEN "p2pkh" ELSE IF x[1] \in {5, 196} THEN "p2sh" ELSE "unspecified"
 B58Ones(x) == IF x[1] = 0 THEN 1 + x[3] ELSE 0      \* '1' characters the untouched string must start with
 WifAccept(x) == x[2] \in {37, 38} /\ x[3] = 0 /\ x[4] = 0 /\ x[5] = 0
+
+(* Constructed classes.  The two layouts of a decoder differ only by length (WIF: 33 + 4 against 34 + 4 bytes), so a    *)
+(* parser that looks at a fixed offset without looking at the length reads a CHECKSUM byte as the compression flag      *)
+(* (or a key byte as the checksum ...).  Such slips show only for particular byte values, which random keys meet once   *)
+(* in 256 tries; therefore well-formed strings are also CONSTRUCTED (the driver searches the free bytes) such that      *)
+(*   con = <<1, v>>: the first checksum byte is v        <<2, v>>: the last checksum byte is v                          *)
+(*         <<3, v>>: the last key / hash byte is v       <<5, v>>: the first key / hash byte is v                       *)
+(*         <<4, i>>: the string starts with the i-th character of the alphabet (skipped when no payload does)           *)
+(* with v ranging over the values a length-blind parser could take for a flag or a version byte.  Every one of them is  *)
+(* a valid string: accepted, with version, key / hash and compression exactly as the layout says, and re-encoded        *)
+(* to itself.                                                                                                           *)
+ConVals == {0, 1, 2, 5, 111, 128, 196, 239, 255}
+Constraints == ({1, 2, 3, 5} \X ConVals) \cup ({4} \X (0..57))
 
 -----------------------------------------------------------------------------
 (* Known answers: the test vectors of BIP173 and BIP350 as character codes.  TLC evaluates the ASSUME at start-up, *)
@@ -619,6 +632,16 @@ WifClass(x) ==
     /\ c' = Case("wif", 0, x) /\ q' = <<>> /\ d' = NoDest /\ s' = <<>>
     /\ r' = [ok |-> WifAccept(x), compressed |-> x[2] = 38]
 
+B58Con(vb, con) ==
+    /\ InGroup(6, vb)
+    /\ c' = Case("b58c", 0, <<vb, con[1], con[2]>>) /\ q' = <<>> /\ d' = NoDest /\ s' = <<>>
+    /\ r' = [ok |-> TRUE, kind |-> B58Kind(<<vb>>), tn |-> vb \in {111, 196}]
+
+WifCon(vb, form, con) ==
+    /\ InGroup(7, vb)
+    /\ c' = Case("wifc", 0, <<vb, form, con[1], con[2]>>) /\ q' = <<>> /\ d' = NoDest /\ s' = <<>>
+    /\ r' = [ok |-> TRUE, compressed |-> form = 38]
+
 TableCases ==
   c.k = "group" /\
   ( \/ \E hid \in {0, 1} : \E ver \in TabVers : \E plen \in TabLens : \E j \in 1..2 : EncCase(hid, ver, plen, j)
@@ -632,7 +655,9 @@ TableCases ==
     \/ \E vb \in B58Versions : \E pl \in {24, 25, 26} : \E lz \in 0..2 : \E ck \in 0..4 : \E bad \in BadKinds : \E on \in {-1, 0, 1} :
           B58Class(<<vb, pl, lz, ck, bad, on>>)
     \/ \E vb \in {128, 239} : \E form \in {36, 37, 38, 380, 382, 383, 39} : \E ck \in 0..4 : \E bad \in BadKinds : \E on \in {0, 1} :
-          WifClass(<<vb, form, ck, bad, on>>) )
+          WifClass(<<vb, form, ck, bad, on>>)
+    \/ \E vb \in B58Versions : \E con \in Constraints : B58Con(vb, con)
+    \/ \E vb \in {128, 239} : \E form \in {37, 38} : \E con \in Constraints : WifCon(vb, form, con) )
 
 Init == c = Case("start", 0, <<>>) /\ q = <<>> /\ d = NoDest /\ s = <<>> /\ r = [ok |-> FALSE]
 
@@ -653,7 +678,7 @@ B32Kinds == {"seed", "sub", "upper", "upsub", "del", "ins", "swap", "flip", "cas
 IsB32 == c.k \in B32Kinds
 
 TypeOK ==
-    /\ c.k \in B32Kinds \cup {"start", "group", "b58raw", "b58bad", "b58", "wif"}
+    /\ c.k \in B32Kinds \cup {"start", "group", "b58raw", "b58bad", "b58", "wif", "b58c", "wifc"}
     /\ IsB32 => /\ r.b32.ok \in BOOLEAN /\ r.seg.ok \in BOOLEAN /\ r.addr.ok \in BOOLEAN
                 /\ \A i \in 1..Len(r.addr.script) : r.addr.script[i] \in 0..255
                 /\ \A i \in 1..Len(r.b32.data) : r.b32.data[i] \in 0..31
